@@ -924,7 +924,8 @@ fn run_typed<R: Raw>(scn: &Scenario, opts: &RunOpts) -> Outcome {
             goal_cache.borrow().iter().find(|(pj, _)| scn.problems[*pj].goal == p.goal && Arc::ptr_eq(&pspaces[*pj].1, &pspaces[pi].1)).map(|(_, g)| g.clone())
         };
         let pd = Arc::new(ProblemDefinition {
-            space: pspaces[pi].1.clone(),
+            // (`fresh_objects`: also a space object of its own — equal, separately allocated)
+            space: if fresh_objects { Arc::new(SimSpace::<R> { inner: pspaces[pi].0.clone(), lay: lay.clone() }) } else { pspaces[pi].1.clone() },
             start_states: p.starts.iter().map(|s| R::dec(&lay, s)).collect(),
             goal: shared_goal.unwrap_or_else(|| {
               let g = Arc::new(SimGoal::<R> {
